@@ -89,6 +89,18 @@ func c17stress(args []string) {
 				fmt.Fprintf(&src, "(run (progn (dotimes (i %d) (funcall crit)) (channel-push fin %d)))\n", st.M, p)
 			}
 			fmt.Fprintf(&src, "(dotimes (i %d) (channel-pop fin))\n", st.N)
+		case "syncmethod":
+			// a synchronized flavor instance whose own methods reach its variables through with-slots: n routines call
+			// the methods m times, the read-modify-write is inside one method call (x = n m)
+			fmt.Fprintf(&src, `(defflavor c17cnt%d ((n 0)) () :gettable-instance-variables)
+(defmethod (c17cnt%d :bump) () (with-slots (n) self (setq n (1+ n))))
+(defmethod (c17cnt%d :peek) () (with-slots ((count n)) self count))
+(setq inst (make-instance 'c17cnt%d)) (set-synchronized inst t) (setq mu (make-mutex)) (setq fin (make-channel %d))
+`, st.ID, st.ID, st.ID, st.ID, st.N)
+			for k := 0; k < st.N; k++ {
+				fmt.Fprintf(&src, "(run (progn (dotimes (i %d) (with-mutex-lock mu (send inst :bump)) (send inst :peek)) (channel-push fin %d)))\n", st.M, k)
+			}
+			fmt.Fprintf(&src, "(dotimes (i %d) (channel-pop fin))\n(setq xcnt (send inst :n))\n", st.N)
 		case "syncinst":
 			slots := make([]string, st.N)
 			for k := range slots {
@@ -197,9 +209,11 @@ func c17stress(args []string) {
   (unless (equal (write-to-string (list i (list %d "x" (list i i i i i i i i))) :pretty t :right-margin 20)
                  (write-to-string (list i (list %d "x" (list i i i i i i i i))) :pretty t :right-margin 20))
     (channel-push errs (list %d i 'print)))
-  (unless (equal (symbol-name (intern (format nil "c17s-~d" i))) (format nil "c17s-~d" i)) (channel-push errs (list %d i 'intern))))
+  (unless (equal (symbol-name (intern (format nil "c17s-~d" i))) (format nil "c17s-~d" i)) (channel-push errs (list %d i 'intern)))
+  (unless (equal (write-to-string (list (intern (format nil "c17p%d-~d" i)) 'a1 (intern (format nil "c17q~d-%d" i)))) (format nil "(c17p%d-~d a1 c17q~d-%d)" i i))
+    (channel-push errs (list %d i 'print-symbol))))
   (channel-push fin %d)))
-`, st.M, st.ID, p, st.ID, p, st.ID, st.ID, p, p, p, p, p, p)
+`, st.M, st.ID, p, st.ID, p, st.ID, st.ID, p, p, p, p, p, p, p, p, p, p, p)
 			}
 			fmt.Fprintf(&src, "(dotimes (i %d) (channel-pop fin))\n", st.N)
 		}
@@ -210,7 +224,7 @@ func c17stress(args []string) {
 			if !o.OK() {
 				ev["st"] = "err:" + o.Class + ": " + o.Msg
 			}
-		case <-time.After(120 * time.Second):
+		case <-time.After(map[bool]time.Duration{true: 20 * time.Second, false: 120 * time.Second}[st.Kind == "syncmethod"]):
 			ev["st"] = "hang"
 			out.Emit(ev)
 			out.Flush()
@@ -223,6 +237,10 @@ func c17stress(args []string) {
 				got = append(got, c17sPairs(h.Eval(s, fmt.Sprintf("got%d", c)).Val))
 			}
 			ev["got"] = got
+		case "syncmethod":
+			if f, ok := h.Eval(s, "xcnt").Val.(slip.Fixnum); ok {
+				ev["x"] = int(f)
+			}
 		case "mutex", "mutexnest":
 			if f, ok := h.Eval(s, "xcnt").Val.(slip.Fixnum); ok {
 				ev["x"] = int(f)
